@@ -353,9 +353,21 @@ def rule_get_year(ck: Check, repo: Repo, rid: str = "R4") -> None:
     gq = "reuse.cli.annotate.get_reuse_info"
     g = repo.func(gq)
     gs = ast.unparse(g)
-    ok = "{make_copyright_line(item, year=year, copyright_prefix=copyright_prefix) for item in copyrights}" in gs and \
-        "spdx_expressions=set(licenses)" in gs and "contributor_lines=set(contributors)" in gs and \
-        "copyright_lines=copyright_lines" in gs
+    from ..model import kwarg as _kw
+    from ..rules import deep_text
+    ctor = [c for n in ast.walk(g) if isinstance(n, ast.Return) and isinstance(n.value, ast.Call) for c in [n.value]]
+    ok = False
+    if len(ctor) == 1 and ast.unparse(ctor[0].func) == "ReuseInfo":
+        got = {k: (deep_text(g, _kw(ctor[0], k)) if _kw(ctor[0], k) is not None else None)
+               for k in ("spdx_expressions", "copyright_lines", "contributor_lines")}
+        cl = got["copyright_lines"] or ""
+        m = re.fullmatch(r"\{(make_copyright_line\(.*\)) for (\w+) in copyrights\}", cl)
+        mk_ok = False
+        if m:
+            mc = ast.parse(m.group(1), mode="eval").body
+            a = {k: ast.unparse(v) for k, v in __import__("sa.model", fromlist=["named_args"]).named_args(mc).items()}
+            mk_ok = a == {"statement": m.group(2), "year": "year", "copyright_prefix": "copyright_prefix"}
+        ok = got["spdx_expressions"] == "set(licenses)" and got["contributor_lines"] == "set(contributors)" and mk_ok
     r.instance(gq, {"ok": ok})
     if not ok:
         r.violation(gq, "request construction", "the three sets must be built from the three options, copyright through"
